@@ -36,7 +36,7 @@ FUNCTIONS = ['GateSequenceGenerator.get_mutually_allowed', 'GateSequenceGenerato
 BOUNDS = {'quick': "solver: all subsets of k <= 4 distinct edges (symbolic indices over the 24 edges) x all 17 idle qubits; real-code composition "
                    "lemma: all 300 subsets of <= 2 edges and a seeded sample of 500 of the 2 024 triples, in list and reversed order x 17 qubits; generator: all edge lists that are a "
                    "seeded sample of 60 lists of 2..6 edges, subgroup sizes 1..3",
-          'thorough': "composition lemma on all 12 950 subsets of <= 4 edges; generator on 400 seeded edge lists of 2..6 edges plus the full "
+          'thorough': "composition lemma on all 12 950 subsets of <= 4 edges plus 6000 / 3000 seeded subsets of 5 / 6 edges; generator on 1500 seeded edge lists of 2..6 edges plus the full "
                       "24-edge list with subgroup size 2 (must be rejected by the combination limit)"}
 OUTSIDE = ["layouts other than Surface-17", "subsets of more than 4 edges for the acceptance clause (the real predicate is pairwise by construction, checked up to 4)",
            "edge lists longer than 6 for the generator"]
@@ -44,7 +44,7 @@ ASSUMPTIONS = ["the statement's 'operating level' of a gate is the frequency gro
                "class B (finite domain): the solver decides the table-level equivalence for all k<=4 subsets at once; the link from tables to the real "
                "functions is established by executing the real functions on every subset within the stated bound"]
 REQUIRED_REACH = ['C16.compose.accept', 'C16.compose.park', 'C16.gen.partition', 'C16.gen.accepted', 'C16.smt.accept', 'C16.smt.park', 'C16.smt.order']
-EXHAUSTIVE = {'quick': True, 'thorough': True}
+EXHAUSTIVE = {'quick': True, 'thorough': False}   # thorough adds seeded samples beyond the exhaustive part
 JOB_OPTS = {'quick': dict(max_paths=10, max_seconds=900, twin=False), 'thorough': dict(max_paths=10, max_seconds=3000, twin=False)}
 RULE = ("one evaluation = one chunk of edge subsets / one generator input executed on the real code (concrete) or one solver query over symbolic "
         "edge indices; non-trivial = chunk containing at least one subset with two gates sharing a qubit or neighbouring at the same level")
@@ -100,12 +100,13 @@ def jobs(tier, seed):
         subsets += random.Random(seed + 3).sample([list(c) for c in itertools.combinations(range(24), 3)], 500)
     else:
         subsets = [list(c) for k in range(1, 5) for c in itertools.combinations(range(24), k)]
+        subsets += random.Random(seed + 3).sample([list(c) for c in itertools.combinations(range(24), 5)], 6000) + random.Random(seed + 4).sample([list(c) for c in itertools.combinations(range(24), 6)], 3000)
     out = []
     chunk = 40 if tier == 'quick' else 60
     for i in range(0, len(subsets), chunk):
         out.append({'part': 'compose', 'subsets': subsets[i:i + chunk]})
     rng = random.Random(seed + 16)
-    n_lists = 60 if tier == 'quick' else 400
+    n_lists = 60 if tier == 'quick' else 1500
     for _ in range(n_lists):
         n = rng.randint(2, 6)
         out.append({'part': 'gen', 'edges': sorted(rng.sample(range(24), n)), 'sizes': [1, 2, 3]})
